@@ -17,6 +17,13 @@ P = {
  "C12": ("proof", "Histories of inserts with generated/supplied/duplicate/malformed ids, saves, replacements and _id-rewriting updates; results and raw dumps vs Lean model and spec (documents keyed by id).", "Lean model/spec; differential histories"),
  "C13": ("proof", "Key-space lemmas (Lean): prefixes of ';'-free collection names never overlap. Catalog histories over prefix-related/unicode names vs model/spec with raw dumps.", "Lean key-space lemmas; differential histories"),
  "C14": ("proof", "Key-space lemmas (Lean): the terminated index prefix selects exactly its (collection, field) entries incl. x/xy and n/n.a. Index create/drop histories vs model/spec with raw dumps.", "Lean key-space lemmas; differential histories"),
+ "C05": ("proof", "Facts regenerated from the source (every transaction-opening function begins exactly one transaction, defers Rollback, commits at most once; bbolt opened with nil options) decided in Lean; model theorem: the committed state is only replaced by a completed body whose commit succeeded. Close/reopen after every write and SIGKILL of a child process at random instants (bbolt, badger on disk): the reopened store must be the model's state after j or j+1 operations and pass the invariant oracle. Partial: power loss and backend-internal recovery are outside the theorem.", "Lean protocol theorem + regenerated transaction-shape facts; kill/reopen correspondence"),
+ "C07": ("proof", "Linearizability of the lock/snapshot protocol proved in Lean for any number of threads and operations (instantiated with the model's operations); regenerated facts: no shared mutable state in the handle, no mutable globals, no builder writes through its receiver. Race-detector build running tagged batches / bulk updates / counters from 2-8 goroutines with perturbed scheduling. Partial: Go scheduler/memory model and badger's conflict detection are outside the theorem.", "Lean linearizability theorem + regenerated structural facts; -race concurrent workload"),
+ "C11": ("proof", "decode_encode proved in Lean for every document at any nesting depth (time wrapping/unwrapping recursive over maps and slices); msgpack/gob abstracted as a faithful serialiser, validated by round trips of the full value grammar through Insert/Save/Update and FindById/FindAll before and after reopen on three backends.", "Lean proof by mutual structural induction; round-trip correspondence"),
+ "C15": ("proof", "Cursor contract proved in Lean over the sorted store (forward seek = entries >= target in order, reverse seek = entries <= target descending, values irrelevant, store determined by its lookups); adapter conformance on random key sets x targets x directions on bbolt, badger-mem, badger-disk; identical histories on all three backends compared pairwise. Partial: that each adapter meets the contract is correspondence, not proof.", "Lean cursor-contract theorems; adapter conformance + cross-backend differential"),
+ "C16": ("proof", "Boolean algebra of Satisfy, Neq/NotExists as negations, In/Contains/Exists characterisations and field-reference dereferencing proved in Lean on the model's sat; Satisfy of the real code vs the model on thousands of (criteria, document) pairs, Boolean laws and Go-numeric-kind invariance checked on the implementation.", "Lean proofs on the criteria model; differential Satisfy"),
+ "C17": ("proof", "range_scan_exact proved in Lean for the model's IterateRange (byte-level cursor steps over any store around the index, both directions, any index content in the key domain): exactly the in-range entries in (value,id) order; full iteration; Intersect sound for all ranges; IsEmpty sound on the domain. IterateRange/Iterate of the real index package on both backends vs the model and vs a direct oracle, with early stops.", "Lean proof (scan = filter on sorted entries, bytes<->values bridge); differential range scans"),
+ "C20": ("proof", "Model operations are total functions returning results or errors; regenerated list of panic-capable source sites (unchecked type assertions, explicit panics) equals the reviewed list (Lean decide); every public call of every stream runs under recover() with a deadline, incl. negated criteria x indexes x missing things x closed handle x three backends and direct document/index API calls. Partial: non-syntactic runtime panics and blocking inside backends are outside the theorem.", "Lean totality + regenerated panic-site facts; recover()-guarded differential"),
 }
 NOT_YET = {
  "C05": "check not built yet in this session (crash/reopen harness pending)",
